@@ -64,6 +64,7 @@ func init() {
 }
 
 func runC45(c *Ctx) {
+	queryFragmentBinding(c, "Q3-fragment-binding")
 	requireStateless(c, "M1-no-state-between-requests",
 		"(pkg/experimental/hiddenpath.AuthoritativeServer).Segments", "(pkg/experimental/hiddenpath.ForwardServer).Segments",
 		"(pkg/experimental/hiddenpath.RegistryServer).Register")
